@@ -131,6 +131,7 @@ class FitHistMachine(Machine):
         ops = [["new", spec, []]]
         nsrc = 0
         n_fit = 0
+        zero_fixed = None
         has_model_src = False
         repeat_obs = sw.choice([None, None, "cost_function_value", "total_cov_mat", "total_error", "model"])
         before_mut = sw.random() < 0.4  # reads placed right before each mutator (exposes lost updates)
@@ -186,6 +187,7 @@ class FitHistMachine(Machine):
                     fv = None if rng.random() < 0.5 else fitlib.gen_point(rng, spec)[pi]
                     if fv is not None and int(round(abs(fv) * 1e4)) % 6 == 0 and spec["type"] in ("xy", "indexed"):
                         fv = 0.0  # a parameter fixed at exactly zero (a falsy value; decided without a further draw: the other histories stay as they were)
+                        zero_fixed = nm
                     ops.append(["fix", [nm, fv]])
                 else:
                     ops.append(["release", nm])
@@ -196,6 +198,12 @@ class FitHistMachine(Machine):
                     ops.append(["cancel", rng.randint(1, 40)])  # F2: the model function raises on its k-th evaluation inside do_fit
                 ops.append(["do_fit"])
                 n_fit += 1
+                if zero_fixed is not None:
+                    # the parameter that was fixed at exactly zero is released right after the fit and the results are inspected (no further draw)
+                    ops.append(["release", zero_fixed])
+                    ops.append(["read", "asymmetric_parameter_errors" if len(ops) % 2 else "parameter_cov_mat", 0.0])
+                    ops.append(["read", "cost_function_value", 0.0])
+                    zero_fixed = None
                 if rng.random() < 0.35:
                     # results of the fit are inspected right after a parameter was fixed / released / limited (the minimizer's derived caches are
                     # rebuilt by the read while the fitted point must stay where it is)
